@@ -147,6 +147,44 @@ Theorem C17_dasch_wrappers_same :
 Proof. exact (fun F n h D X dr => conj (erefl _) (erefl _)). Qed.
 Print Assumptions C17_dasch_wrappers_same.
 
+(* ---- every input shape: a 1-D profile and a one-row 2-D array evaluate the same
+   expression as a row of a many-row image (generated separately for each shape) ---- *)
+Theorem C17_single_row_same_expression :
+  forall (F : fieldType) (n : nat) (B D W : 'M[F]_n) (dr : F) (x : 'rV[F]_n),
+  ([/\ dasch_two_point_onerow_dr D dr x = dasch_two_point_dr D dr x,
+       dasch_two_point_1d_dr D dr x = dasch_two_point_dr D dr x,
+       dasch_three_point_onerow_dr D dr x = dasch_three_point_dr D dr x &
+       dasch_three_point_1d_dr D dr x = dasch_three_point_dr D dr x] /\
+   (dasch_onion_peeling_onerow_dr W dr x = dasch_onion_peeling_dr W dr x /\
+    dasch_onion_peeling_1d_dr W dr x = dasch_onion_peeling_dr W dr x)) /\
+  ([/\ daun_forward_deg0_none_onerow_dr B dr x = daun_forward_deg0_none_dr B dr x,
+       daun_forward_deg0_none_1d_dr B dr x = daun_forward_deg0_none_dr B dr x,
+       daun_inverse_deg0_none_onerow_dr B dr x = daun_inverse_deg0_none_dr B dr x &
+       daun_inverse_deg0_none_1d_dr B dr x = daun_inverse_deg0_none_dr B dr x] /\
+   [/\ daun_forward_deg3_none_onerow_dr B dr x = daun_forward_deg3_none_dr B dr x,
+       daun_forward_deg3_none_1d_dr B dr x = daun_forward_deg3_none_dr B dr x,
+       daun_inverse_deg3_none_onerow_dr B dr x = daun_inverse_deg3_none_dr B dr x &
+       daun_inverse_deg3_none_1d_dr B dr x = daun_inverse_deg3_none_dr B dr x]).
+Proof. exact (fun F n B D W dr x => conj (dasch_single_row D W dr x) (daun_single_row B dr x)). Qed.
+Print Assumptions C17_single_row_same_expression.
+
+Theorem C17_dasch_row_of_image :
+  forall (F : fieldType) (n : nat) (D : 'M[F]_n) (dr : F) (h : nat) (X : 'M[F]_(h, n)) (i : 'I_h),
+  row i (dasch_two_point_dr D dr X) = dasch_two_point_1d_dr D dr (row i X) /\
+  row i (dasch_three_point_dr D dr X) = dasch_three_point_1d_dr D dr (row i X).
+Proof. exact dasch_row_of_image. Qed.
+Print Assumptions C17_dasch_row_of_image.
+
+(* daun default == onion_peeling for every pixel size and every input shape *)
+Theorem C17_daun_default_eq_onion_peeling_all_shapes :
+  forall (F : fieldType) (n : nat) (B W : 'M[F]_n) (dr : F) (x : 'rV[F]_n) (h : nat) (X : 'M[F]_(h, n)),
+  is_trig_mx B -> W = B^T ->
+  [/\ daun_inverse_deg0_float0_dr B dr X = dasch_onion_peeling_dr W dr X,
+      daun_inverse_deg0_none_1d_dr B dr x = dasch_onion_peeling_1d_dr W dr x &
+      daun_inverse_deg0_none_onerow_dr B dr x = dasch_onion_peeling_onerow_dr W dr x].
+Proof. exact daun_default_eq_onion_peeling_shapes. Qed.
+Print Assumptions C17_daun_default_eq_onion_peeling_all_shapes.
+
 (* hypotheses are satisfiable *)
 Example C17_hypotheses_satisfiable :
   is_trig_mx (1%:M : 'M[rat]_3) /\ ((1%:M : 'M[rat]_3) \in unitmx) /\ (1%:M : 'M[rat]_3) = (1%:M)^T.
